@@ -459,6 +459,66 @@ impl World {
                     let base = self.id_base.unwrap_or(0);
                     emit(json!({"e": "Ident", "h": h, "a": a, "id": id.wrapping_sub(base)}));
                 }
+                "erase" => {
+                    let vk = cmd["vk"].as_str().unwrap_or("");
+                    let by_val = cmd["by"].as_str() == Some("val");
+                    let erased = self.erased;
+                    if !matches!(hh, H::S(_) | H::W(_)) {
+                        bad = true;
+                        return;
+                    }
+                    if by_val {
+                        if erased {
+                            let old = hs.remove(&h).unwrap();
+                            let n = match old {
+                                H::S(arc) => match Arc::try_unwrap(arc) {
+                                    Ok(r) => match vk {
+                                        "tellh" => H::Tell(Arc::new(r.into())),
+                                        "askh" => H::Ask(Arc::new(r.into())),
+                                        _ => H::Ctl(Arc::new(r.into())),
+                                    },
+                                    Err(arc) => {
+                                        bad = true;
+                                        H::S(arc)
+                                    }
+                                },
+                                H::W(arc) => match Arc::try_unwrap(arc) {
+                                    Ok(w) => match vk {
+                                        "tellh" => H::WTell(Arc::new(w.into())),
+                                        "askh" => H::WAsk(Arc::new(w.into())),
+                                        _ => H::WCtl(Arc::new(w.into())),
+                                    },
+                                    Err(arc) => {
+                                        bad = true;
+                                        H::W(arc)
+                                    }
+                                },
+                                other => other,
+                            };
+                            hs.insert(h, n);
+                        }
+                        emit(json!({"e": "Erase", "h": h, "h2": 0, "a": a, "k": k, "vk": vk}));
+                    } else {
+                        let n = match (hh, erased) {
+                            (H::S(r), false) => H::S(Arc::new((**r).clone())),
+                            (H::W(w), false) => H::W(Arc::new((**w).clone())),
+                            (H::S(r), true) => match vk {
+                                "tellh" => H::Tell(Arc::new((&**r).into())),
+                                "askh" => H::Ask(Arc::new((&**r).into())),
+                                _ => H::Ctl(Arc::new((&**r).into())),
+                            },
+                            (H::W(w), true) => match vk {
+                                "tellh" => H::WTell(Arc::new((&**w).into())),
+                                "askh" => H::WAsk(Arc::new((&**w).into())),
+                                _ => H::WCtl(Arc::new((&**w).into())),
+                            },
+                            _ => unreachable!(),
+                        };
+                        hs.insert(h2, n);
+                        used_h2 = true;
+                        emit(json!({"e": "Erase", "h": h, "h2": h2, "a": a, "k": k, "vk": vk}));
+                    }
+                }
                 _ => bad = true,
             }
         });
